@@ -114,3 +114,23 @@ def qpq_tolerance_order(case, viol):
     m = re.search(r'maxDiff:\s*(\d+).*?geps:\s*(\d+)', rep, re.S)
     # "near the tolerance" as in C13: truncation noise of equal quotients (a few units of 10^-18) does not count
     return bool(m) and int(m.group(1)) * 1000 > int(m.group(2))
+
+
+def guard_digits_cure(case, viol):
+    """F14 (sequence form): a guarded count leaves the exact count's action sequence although its statistics are far from the
+    tolerance, because the truncation accumulated over a large electorate with few guard digits exceeds the gap between two
+    tallies.  Identity: the same election with 12 more guard digits passes the whole guarded-versus-rational comparison of C13
+    (sequence and tallies); if it does not, the deviation is not a matter of guard digits and stays new."""
+    from .props import C13
+    if case.get('kind') != 'countq':
+        return False
+    c = case['case']
+    o = dict(c['options'])
+    o['guard'] = int(o.get('guard', 0)) + 12
+    try:
+        r = C13.check_countq(dict(case, case=dict(c, options=o)))
+    except Exception:      # pylint: disable=broad-except
+        return False
+    # the better-resolved twin either agrees with the exact count or owns up to a comparison near the tolerance (which the
+    # few-digit count could not see: its truncation noise had pushed the two values apart)
+    return not r.violations and not r.skipped and ('countq-far' in r.classes or 'countq-near-tolerance(not asserted)' in r.classes)
